@@ -1,6 +1,6 @@
 import TinsModel.Wire.L2.ThFamily
 import TinsModel.Wire.L2.ThChain
-import TinsModel.Wire.L2.ThChainFixpoint
+import TinsModel.Wire.L2.ThChainParse
 /-
   Per-layer and family-level theorems of the L2 family for the four wire properties.  Index:
 
@@ -18,4 +18,5 @@ import TinsModel.Wire.L2.ThChainFixpoint
   ThChainReparse.lean  l2_chain_reparse: whole-packet C03 (re-parse preserves the view) for stacks of any depth, examples
   ThChainFixpoint.lean serializeInto_wire (closed form of PDU::serialize), l2_chain_reserialize_fixpoint_partial /
                      _fails: whole-packet C03, second half (the second serialization reproduces the bytes)
+  ThChainParse.lean  parse_stackable (what the parsing constructors accept is `Stackable`), l2_c03 (property C03 as stated)
 -/
